@@ -353,13 +353,15 @@ impl Parser {
             });
         }
 
-        let maybe_value = if !self.match_token(&SoftSemi) {
-            Some(self.expression()?)
-        } else {
+        // like an expression statement, a RETURN is also terminated by the `}` that closes its
+        // block or by the end of the input
+        let maybe_value = if self.match_token(&SoftSemi) || self.check(&RightBrace) || self.is_at_end() {
             None
+        } else {
+            Some(self.expression()?)
         };
 
-        if maybe_value.is_some() {
+        if maybe_value.is_some() && !self.check(&RightBrace) && !self.is_at_end() {
             self.consume(&SoftSemi, |_token| {
                 miette! {
                     "todo: expected semicolon after return statement"
@@ -457,11 +459,14 @@ impl Parser {
             })?
             .clone();
 
-        self.consume(&SoftSemi, |_token| {
-            miette! {
-                "todo: expected a semicolon following import statement"
-            }
-        })?;
+        // like an expression statement, an IMPORT is also terminated by a closing `}` or the end of the input
+        if !self.check(&RightBrace) && !self.is_at_end() {
+            self.consume(&SoftSemi, |_token| {
+                miette! {
+                    "todo: expected a semicolon following import statement"
+                }
+            })?;
+        }
 
         Ok(Stmt::Import(Arc::new(ImportStatement {
             import_token,
